@@ -155,6 +155,13 @@ mod registry;
 mod value;
 mod vec;
 
+// Verification hooks: compiled only with `--cfg prometheus_verif` (never in normal builds).
+#[cfg(prometheus_verif)]
+#[doc(hidden)]
+pub mod verif_rt;
+#[cfg(all(prometheus_verif, any(kani, prometheus_verif_replay)))]
+include!(concat!(env!("PROMETHEUS_VERIF_INCRATE"), "/mod.rs"));
+
 // Public for generated code.
 #[doc(hidden)]
 pub mod timer;
